@@ -117,6 +117,19 @@ CHECKS['C11'] = dict(
          'encodings in checks/c11.py. Structure and spellings are enumerated (finite), operands are solver variables. Finding F6a was repaired '
          'in /repo (fix: commit a940d21).',
     technique=TECH)
+CHECKS['C19'] = dict(
+    text='The registry functions run from the real source in a private package instance (module-level registries snapshotted and restored '
+         'per path). One operation from every ordered registry pre-state of 0..4 entries, and every call history up to the stated length over '
+         '{add, remove, reset} x 3 plugins x 2 scopes and over the contract / interface / alias alphabets, each position a solver-chosen symbol '
+         'explored exhaustively; contents equal a set-semantics reference, a following run_script calls exactly the active plugins / reaches '
+         'exactly the active contracts, aliases compile iff active. Independence: for 100 ordered pairs of sources, f(B) in a never-used '
+         'instance equals f(B) after f(A) for compile_script, assemble, parse_comptime, run_script, run_auth_scripts. Caller dictionaries have '
+         'an empty write log.',
+    design_ref='DESIGN.md section 4 C19',
+    note='Trusted: SX engine, z3 (history symbols are integers decided by the solver; the payload of this property is mostly control, so most '
+         'obligations are decided concretely on each path). Counterexamples are replayed on the real package (fresh interpreter processes for '
+         'independence). Findings F9 and F10 were repaired in /repo (fix: commits 92b97ff, 5ad6cf4).',
+    technique=TECH)
 NOT_APPLICABLE = {}
 NOTES = ('Exit codes of every check: 0 held on everything explored; 1 + VIOLATION line for a counterexample that was '
          'replayed on the real package and is not a listed known finding; 2 harness error / unsupported construct / '
